@@ -45,11 +45,21 @@ At(s, I) == AtFrom(s, I, 1)
 (***************************************************************************)
 Kinds == {"num", "str", "arr"}
 KeyTab(kind) ==
-  CASE kind = "num" -> << V!IntV(-1), V!IntV(2), V!IntV(10), V!Num(1, 21, -1), V!IntV(100) >>
+  CASE kind = "num" -> << V!IntV(-1), V!IntV(0), V!IntV(10), V!Num(1, 21, -1), V!IntV(100) >>
     [] kind = "str" -> << V!Str(<<97>>), V!Str(<<97, 98>>), V!Str(<<98>>), V!Str(<<65535>>), V!Str(<<119070>>) >>
-    [] kind = "arr" -> << V!Arr(<<V!IntV(0)>>), V!Arr(<<V!IntV(0), V!IntV(1)>>), V!Arr(<<V!IntV(1)>>),
+    [] kind = "arr" -> << V!Arr(<<>>), V!Arr(<<V!IntV(0), V!IntV(1)>>), V!Arr(<<V!IntV(1)>>),
                           V!Arr(<<V!IntV(1), V!IntV(0)>>), V!Arr(<<V!IntV(2)>>) >>
 TabLen == 5
+\* A second spelling of the SAME key (equal under ==, "eq" under std.__compare): elements with an odd
+\* tag use it, so that equal keys are not always bit-identical (0 and -0, [] and [], [-0, 1] and [0, 1]).
+AltTab(kind) ==
+  CASE kind = "num" -> << V!IntV(-1), V!Num(-1, 0, 0), V!IntV(10), V!Num(1, 21, -1), V!IntV(100) >>
+    [] kind = "str" -> KeyTab("str")
+    [] kind = "arr" -> << V!Arr(<<>>), V!Arr(<<V!Num(-1, 0, 0), V!IntV(1)>>), V!Arr(<<V!IntV(1)>>),
+                          V!Arr(<<V!IntV(1), V!Num(-1, 0, 0)>>), V!Arr(<<V!IntV(2)>>) >>
+LawAltTab == \A kind \in {"num", "str", "arr"} : \A i \in 1..TabLen :
+               /\ V!Equal(KeyTab(kind)[i], AltTab(kind)[i]) = "true"
+               /\ V!Cmp(KeyTab(kind)[i], AltTab(kind)[i]) = "eq"
 KeyVal(kind, r) == IF kind = "int" THEN V!IntV(r) ELSE KeyTab(kind)[r]
 NegV(v) == V!Num(0 - v.s, v.m, v.e)          \* unary minus on a number
 SymOf(n) == IF n < 0 THEN "lt" ELSE IF n > 0 THEN "gt" ELSE "eq"
